@@ -8,7 +8,8 @@ CHECKS["C01"] = (
     "Every obligation (point maps, sub-interval and relative-location conversions, FeatureInterval wrappers) is decided "
     "for ALL integer coordinates of every layout with <=3 (quick) / <=4 (thorough) blocks on both strands: the path tree is "
     "exhausted and each path's negated oracle is unsat; the relative-location conversions also leave both operands unchanged. A seeded "
-    "off-by-one/strand bug is returned as a concrete input and replayed.",
+    "off-by-one/strand bug is returned as a concrete input and replayed."
+    " Also: point maps of DERIVED locations (results of optimize_blocks / whole-length sub-intervals on overlapping layouts) and 17-block (thorough 40) locations with symbolic common length/gap.",
     _NOTE, "DESIGN.md §3 C01")
 CHECKS["C02"] = (
     _CH,
@@ -22,7 +23,8 @@ CHECKS["C06"] = (
     _CH,
     "For every exon layout (<=2 exons quick, <=3 thorough) and every CDS window placement (driver-enumerated exon span, symbolic "
     "offsets) on both strands: chromosome/transcript/CDS conversions commute and invert, out-of-system positions are rejected, "
-    "aa == cds//3 for all start frames, 5'UTR/CDS/3'UTR partition the exons in order (empty UTRs are values), introns == span minus exons.",
+    "aa == cds//3 for all start frames, 5'UTR/CDS/3'UTR partition the exons in order (empty UTRs are values), introns == span minus exons."
+    " Also: interval conversions with relative strand MINUS (whole-length intervals included).",
     _NOTE, "DESIGN.md §3 C06")
 CHECKS["C16"] = (
     "src2smt: bins() translated from its AST to z3 integer terms at every run; z3 + cvc5 decide each query over all integers",
@@ -31,7 +33,8 @@ CHECKS["C16"] = (
     "queries over ALL integers (no bound); helper functions are inlined and module-level memo tables are encoded as arbitrary earlier calls "
     "(free variables), so the queries hold for every call history; constructor wiring (incl. chunk parents) and the CONSUMER - range queries of "
     "the real AnnotationCollection code against the exact bin terms, strict and relaxed, 2-isoform gene with a gap - are decided by CrossHair. "
-    "Recorded deviations (F6a, F6b, F6e) are excluded by their exact regions and replayed on every run.",
+    "Recorded deviations (F6a, F6b, F6e) are excluded by their exact regions and replayed on every run."
+    " Stored bins of gene/feature/collection objects are compared on the exact bin terms (wiring_exact_*), and a straddling 2-isoform gene with a later contained member is in the quick tier.",
     "Trusted: z3 5.1 / cvc5 1.4 on LIA with div by constants; the translator (validated per run); the independent UCSC "
     "reference in harness/c16.py. If bins() leaves the translatable subset the SMT obligations are inconclusive and a "
     "concrete boundary-grid fallback (stated in evidence) is the only remaining detector.",
@@ -50,7 +53,8 @@ CHECKS["C05"] = (
     "1..7, 2 exons 1..4 each, 3-exon representatives; thorough: all 3-exon 1..4 and 2-exon 1..7) x every annotated frame vector "
     "x both strands with UNBOUNDED symbolic start and gaps (0-bp gaps included); windowed scans with symbolic window; "
     "construct_frames_from_location with symbolic lengths; fast/codon/cached sequence paths, translation (3 tables x truncate) "
-    "and start/stop predicates against the standard code on a concrete genome (offsets enumerated by the solver).",
+    "and start/stop predicates against the standard code on a concrete genome (offsets enumerated by the solver)."
+    " Also: construct_frames_from_location as a pure function under real memoisation (earlier results unchanged, caller edits irrelevant); codon-less CDSs answer every predicate with the empty value or a documented refusal.",
     _NOTE + " Sequence legs: inputs are realised, the body then runs natively; the solver closes the finite input space.",
     "DESIGN.md §3 C05")
 CHECKS["C15"] = (
@@ -77,7 +81,8 @@ CHECKS["C03"] = (
     "On tagged parent sequences of every nucleotide alphabet (all 32 IUPAC letters/cases and the gap, rotated over four sequences) "
     "EVERY 1-block and 2-block location (sorted, adjacent, empty, overlapping) within the sequence on both strands is extracted and "
     "compared base by base with the coordinate map and an independent IUPAC complement; strand reversal, every two-way split, every "
-    "slice bound pair in [-n-1,n+1] of located sequences, reverse_complement and append (acceptance and recorded location) are covered.",
+    "slice bound pair in [-n-1,n+1] of located sequences, reverse_complement and append (acceptance and recorded location) are covered."
+    " Also: append with spliced pieces and re-appending the halves of a spliced sequence cut anywhere; relative-minus windows taken after the enclosing location was extracted.",
     _NOTE + " Coordinates are realised (str slicing is a C boundary): the claim is exhaustive over the stated finite spaces, not over unbounded integers.",
     "DESIGN.md §3 C03")
 CHECKS["C04"] = (
@@ -86,7 +91,8 @@ CHECKS["C04"] = (
     "layouts are fully symbolic (<=2 blocks each, either strand; depth 3 with single-block placements in quick, deeper/wider in "
     "thorough): the i-th base of the lifted location equals the composition of the per-level point maps for a symbolic index i, "
     "strand = product. Chunk legs: symbolic chunk offset on either strand, lift down and back == intersection with the window, "
-    "chunk-to-chunk re-lift; sequence preservation by identity and by type on tagged sequences at depth 2 and 3; missing ancestors refused.",
+    "chunk-to-chunk re-lift; sequence preservation by identity and by type on tagged sequences at depth 2 and 3; missing ancestors refused."
+    " Also: lift-over through a placement of two OVERLAPPING blocks (length preserved, every child base covered; block order is the library's sorted normal form).",
     _NOTE, "DESIGN.md §3 C04")
 CHECKS["C07"] = (
     _CH,
@@ -97,7 +103,8 @@ CHECKS["C07"] = (
     "lengths/frames driver-enumerated, offsets symbolic; a realised variant covers more length/frame vectors); sequences/translation on "
     "the chunk equal the in-window stretch; CDS never dropped while the transcript stays coding; a CDS with no base in the chunk has no "
     "chunk-relative codon; computed identifiers (real MD5) of feature/transcript/CDS/gene/collections equal across no parent / chromosome / chunk. "
-    "F8b and F18 excluded by their exact regions.",
+    "F8b and F18 excluded by their exact regions."
+    " Also: every position conversion of a coding transcript on a cutting chunk equals the parent-less twin's; isoform CDSs with equal spans evaluated alternately on one chunk; the primary transcript/feature is the twin's.",
     _NOTE, "DESIGN.md §3 C07")
 CHECKS["C08"] = (
     _CH + "; cvc5/z3 string queries over digest pre-image templates extracted from the real constructors",
@@ -107,7 +114,8 @@ CHECKS["C08"] = (
     "unsat string queries (templates regenerated by running the real constructors with md5 recorded, validated on a second run); "
     "qualifier key/value insertion orders and set iteration orders (6x6x6, values differing only by case included); transcripts built from "
     "phases; pickle with none/chromosome/un-named chromosome/chunk parents and variant collections; schema+JSON load/dump with and without "
-    "variants. F7 (VariantInterval pre-image without separator) recorded.",
+    "variants. F7 (VariantInterval pre-image without separator) recorded."
+    " Also: features with blocks sharing a start (exported lists = constructor lists); an exported dictionary is not consumed by importing it (imports twice to the same collection).",
     _NOTE + " MD5 collision freedom assumed; pickle's byte format and a process-level PYTHONHASHSEED sweep are outside the claim.",
     "DESIGN.md §3 C08")
 CHECKS["C13"] = (
@@ -117,7 +125,8 @@ CHECKS["C13"] = (
     "block locations, 2-variant collections, overlap refusal); on a concrete 24-nt reference (variant offsets/spans/alts closed by "
     "the solver, whole chromosome and chunk): alternative_genomic_sequence == literal substitution, lifted locations and "
     "Feature/Transcript(coding and non-coding)/CDS.incorporate_variants reproduce the edited reference (CDS also in frame and inside the "
-    "exons); 3-variant collections in any order refused exactly when a pair overlaps. F4 (left-to-right collection lift-over) recorded with its region.",
+    "exons); 3-variant collections in any order refused exactly when a pair overlaps. F4 (left-to-right collection lift-over) recorded with its region."
+    " Also: collections built with two variant collections (alternative_haplotype_mapping per haplotype); the reference object is unchanged by a lift-over and a second lift-over gives the same answer.",
     _NOTE + " The VCF grouping clause is outside the claim (PyVCF absent).", "DESIGN.md §3 C13")
 CHECKS["C20"] = (
     _CH,
@@ -125,7 +134,8 @@ CHECKS["C20"] = (
     "CDS lengths (ties included), coding pattern / primary flags / exon counts / strands driver-enumerated: span = (min,max), "
     "is_coding = any, primary = flagged (two flags refused) else argmax (CDS, spliced length, earliest) as a symbolic term, merged "
     "transcript/CDS/feature cover exactly the union (probe position), types = union; annotation collections iterate sorted by "
-    "start (stable) with inferred bounds; primary sequence accessors on a concrete genome.",
+    "start (stable) with inferred bounds; primary sequence accessors on a concrete genome."
+    " Aggregating leaves the members as they were (types of a re-collected member).",
     _NOTE, "DESIGN.md §3 C20")
 CHECKS["C09"] = (
     _CH + "; the bin pre-filter is modelled twice: by the EXACT semantics of bins() (z3 terms generated from its source, bin numbers symbolic) and by a nondeterministic CONTRACT stub whose contract C16 proves",
@@ -136,7 +146,8 @@ CHECKS["C09"] = (
     "interval-guid / identifier queries for every enumerated request set; interval-guid sub-selection; realised legs with the REAL "
     "bins and real sequence re-chunking (sequences restricted to new bounds, idempotence, chunk offsets across a 128 kb boundary, members cut "
     "by the chunk edge, 2^29 boundary = recorded finding F6c); strict and relaxed queries against the exact bin terms for ALL integer "
-    "coordinates (F6d region excluded).",
+    "coordinates (F6d region excluded)."
+    " Also: two different genomes carrying the same chromosome name queried alternately in one process.",
     _NOTE + " cgranges branch not installed, not covered.", "DESIGN.md §3 C09")
 CHECKS["C19"] = (
     _CH + " in CrossHair's native mode: search for an input that raises an undocumented exception or yields an ill-formed object",
@@ -144,7 +155,8 @@ CHECKS["C19"] = (
     "all three strands; Parent/Sequence/CDS/Transcript/Feature/Gene/collection/variant constructors with every kind of inconsistent "
     "argument; boundary probes (zero-length requests, window == length, empty/duplicate children, codon-less CDS, 5000-block "
     "locations under the default recursion head-room, query ranges with unconstrained integers, 3-variant collections in any order). Post-condition: a well-formed value, or an exception from the allowed set "
-    "(BioCantorException subclasses, ValueError, TypeError, NotImplementedError); any other exception is a counterexample.",
+    "(BioCantorException subclasses, ValueError, TypeError, NotImplementedError); any other exception is a counterexample."
+    " Also: invalid codon text refused on every request (no half-built singleton), and a single out-of-alphabet character at block edges (multiples of 1024) of a 196613-nt sequence.",
     _NOTE, "DESIGN.md §3 C19")
 CHECKS["C11"] = (
     _CH + "; z3 queries over the live escape tables; the export->parse leg runs the real gffutils-based parser natively on realised inputs",
@@ -157,7 +169,8 @@ CHECKS["C11"] = (
     "headers/ordering/FASTA section. EXPORT->PARSE: for 3 exon layouts (incl. a 0-bp gap), every CDS window, 3 start frames x 3 frame-vector modes, "
     "isoform kinds, identifier and biotype patterns, with and without FASTA: the parsed gene models equal the source (exons, CDS blocks, frames, "
     "strand, ids, symbols, locus tag, biotypes, protein id, product, qualifiers, sequences), re-export reproduces columns 1-8 and is a fixed point "
-    "from the second generation. F15, F16, F17 recorded.",
+    "from the second generation. F15, F16, F17 recorded."
+    " Isoforms with and without transcript id in one gene are among the identifier patterns.",
     _NOTE + " The parse legs are realised (gffutils/sqlite3 run natively): exhaustive over the stated finite spaces only.", "DESIGN.md §3 C11, §8.1")
 CHECKS["C17"] = (
     _CH,
@@ -166,7 +179,8 @@ CHECKS["C17"] = (
     "locus tag); locus-tag stepping with a SYMBOLIC step over a two-sequence file; coding genes on a 48-nt genome built from "
     "start/stop/sense codons, every CDS window x start frame x strand x translation table x flavour closed by the solver: "
     "5'-partial <=> first codon not a start of the table, 3'-partial <=> not ending in frame on a stop, codon_start = frame+1, pseudo "
-    "<=> in-frame stop, mRNA omitted in the prokaryotic flavour; adjacent CDS blocks merged; seeded output byte-identical.",
+    "<=> in-frame stop, mRNA omitted in the prokaryotic flavour; adjacent CDS blocks merged; seeded output byte-identical."
+    " Also: adjacent CDS blocks with arbitrary annotated frames (pseudo / partial marks / codon_start of the MERGED CDS that is written) and two-exon CDSs with exon lengths 1..9 (stop codons split by the intron).",
     _NOTE, "DESIGN.md §3 C17")
 CHECKS["C10"] = (
     _CH + ": the SCHEDULE of operations is the symbolic variable (real memoisation on, bodies run natively), plus one inductive step over lazy-slot states with symbolic coordinates",
@@ -176,7 +190,8 @@ CHECKS["C10"] = (
     "the last answer equals a fresh twin's in value AND type, and the object's snapshot (str, to_dict, hash, guid, blocks, qualifiers, "
     "children's dictionaries/qualifiers/blocks) is unchanged; reference answers come from a clean global Parent cache and a twin built after the "
     "schedule must agree with it (3-level hierarchies included). H1: with unbounded symbolic coordinates (overlapping/nested layouts included), "
-    "after filling the hand-written lazy slots of a CompoundInterval every accessor answers as on an untouched twin.",
+    "after filling the hand-written lazy slots of a CompoundInterval every accessor answers as on an untouched twin."
+    " Also: Parent objects (sequence/strand/location/ancestry shapes) and interval-level lift-over to different ancestor types in the schedule catalogues.",
     _NOTE + " Histories longer than 3 operations and multi-threaded use are outside the claim.", "DESIGN.md §3 C10")
 for _p in []:
     NOT_APPLICABLE[_p] = "check not built yet (build in progress; see DESIGN.md §3 for the planned solver-based check)"
